@@ -106,6 +106,8 @@ func c12Run(r *Run, start, preamble string) {
 	}
 
 	var flowList []c12Flow
+	flowOK := map[string]bool{}  // does the flow work at this history point with nothing paused?
+	adminOK := map[string]bool{} // same for the administrative transactions
 	bfs := &BFS{
 		Scn: scn, MaxDepth: 32, ValidatePaths: true,
 		Init: func(r *Run, w *World, root *Node) {
@@ -137,6 +139,23 @@ func c12Run(r *Run, start, preamble string) {
 				do(AdminTxs[4].Make(Owner.Str)) // max body size 9000
 				do(Act("setMaxBurnAmountPerMessage(uusdc,1000) by A3", &cctptypes.MsgSetMaxBurnAmountPerMessage{From: TokenCtl.Str, LocalToken: "uusdc", Amount: math.NewInt(1000)}))
 			}
+			// baseline with both flags clear: pausing can only be blamed for what works without it
+			flowList = flows()
+			unpaused := w.Dump()
+			for _, f := range flowList {
+				w.Load(unpaused)
+				flowOK[f.Name] = w.Apply(f.Make()).OK
+			}
+			for _, tx := range AdminTxs {
+				w.Load(unpaused)
+				holder := map[Role]string{RoleOwner: Owner.Str, RoleAttMgr: AttMgr.Str, RolePauser: Pauser.Str, RoleTokenCtl: TokenCtl.Str}[tx.Role]
+				if tx.Role == RolePending {
+					w.Apply(AdminTxs[0].Make(Owner.Str))
+					holder = Outsider.Str
+				}
+				adminOK[tx.Name] = w.Apply(tx.Make(holder)).OK
+			}
+			w.Load(unpaused)
 			m := c12Model{}
 			if start[0] == 'T' {
 				do(Act("pauseBurningAndMinting by A2", &cctptypes.MsgPauseBurningAndMinting{From: Pauser.Str}))
@@ -147,7 +166,6 @@ func c12Run(r *Run, start, preamble string) {
 				m.Send = true
 			}
 			root.Model, root.MKey = m, m.key()
-			flowList = flows()
 		},
 		Actions: func(n *Node, w *World) []Action {
 			var as []Action
@@ -201,6 +219,8 @@ func c12Run(r *Run, start, preamble string) {
 					rp := scn.Replay("actions", path)
 					rp.Expected, rp.Observed = "blocked ("+m.key()+")", "ok"
 					r.Violate("C12 paused flow went through: "+f.Name, fmt.Sprintf("flags %s: %s succeeded", m.key(), a.Desc), rp)
+				case !blocked && !o.OK && !flowOK[f.Name]:
+					r.Truncate("C12: flow " + f.Name + " fails even with nothing paused at this history point; pausing cannot be judged for it")
 				case !blocked && !o.OK:
 					rp := scn.Replay("actions", path)
 					rp.Expected, rp.Observed = "succeeds ("+m.key()+")", o.Err
@@ -228,7 +248,9 @@ func c12Run(r *Run, start, preamble string) {
 				r.Class(o.Class())
 				path := append(append([]Action{}, pathPre...), a)
 				r.Distinct(fmt.Sprintf("%s|%s|admin %s|%s", start+preamble, m.key(), tx.Name, o.Class()))
-				if !o.OK {
+				if !o.OK && !adminOK[tx.Name] {
+					r.Truncate("C12: administrative transaction " + tx.Name + " fails even with nothing paused; availability while paused cannot be judged for it")
+				} else if !o.OK {
 					rp := scn.Replay("actions", path)
 					rp.Expected, rp.Observed = "administrative action available while paused", o.Err+o.PanicVal
 					r.Violate("C12 administrative action unavailable: "+tx.Name, fmt.Sprintf("flags %s: %s failed: %s", m.key(), a.Desc, o.Err), rp)
